@@ -30,3 +30,15 @@ CHECKS["C18"] = {
   "note": TB + "acronym table regenerated from acronym.rs each run; pluralizer crate is a parameter of the variant-table theorem; "
           "Unicode case mapping outside ASCII not modelled (tokens are ASCII alphanumerics by construction of the tokenizer).",
 }
+FIX_COMMITS.append("6d172b3 fix: refuse to apply when a rename destination already exists")
+CHECKS["C05"] = {
+  "text": "Theorems for all trees and plans: any planned destination that already exists makes the whole apply refuse before "
+          "anything changes (occupied_refused); a rename onto a free destination keeps every node and so does the whole "
+          "rename phase along any execution with free destinations; a successful rename onto an occupied path always loses a "
+          "node (why the pre-flight is needed). The model (pre-flight, rename(2) errno cases, rollback) is run against the "
+          "real apply_plan on occupied/chain trees and the CLI is checked with a content-multiset oracle.",
+  "design_ref": "DESIGN.md section 4, C05",
+  "technique": "Lean 4 proof (case analysis on rename(2) + induction over the rename list) + differential correspondence + CLI multiset oracle",
+  "note": TB + "POSIX rename semantics per RModel.Model.Fs; case-insensitive filesystems (destination differing only by case) "
+          "are not modelled: the same-file exception of the pre-flight is only exercised on a case-sensitive filesystem.",
+}
